@@ -102,7 +102,7 @@ func (w *World) byzBlock(b int, r int, variant string) *BlockInfo {
 		commit = lc.MakeCommit()
 	}
 	app := &consensus.VerifSimApp{}
-	if variant == "B" || variant == "bad-txhash" || strings.HasPrefix(variant, "F") {
+	if variant == "B" || variant == "bad-txhash" || strings.HasPrefix(variant, "F") || strings.HasPrefix(variant, "I") {
 		app.TxScript = func(uint64, common.Address) []*types.Transaction {
 			payload := []byte{byte(b)}
 			if strings.HasPrefix(variant, "F") {
@@ -128,6 +128,9 @@ func (w *World) byzBlock(b int, r int, variant string) *BlockInfo {
 	switch {
 	case strings.HasPrefix(variant, "F"):
 		variant = "F"
+	case strings.HasPrefix(variant, "I"):
+		// a fresh INVALID block per round (wrong application hash)
+		variant = "bad-apphash"
 	}
 	switch variant {
 	case "A", "B", "F":
